@@ -93,7 +93,7 @@ def _analyse_point(args):
 def _template_options(ctx, rel: str) -> typing.Set[str]:
     """options.<name> the support template reads (the lattice must cover every one that steers a branch)"""
     src = (ctx.root / rel).read_text()
-    return set(re.findall(r"\boptions\.([a-z_]+)\b", src)) - {"items"}
+    return set(re.findall(r"\boptions\.([a-z_]+)\b", src)) - {"items", "keys", "values", "get"}
 
 
 def _line_of(ctx, rel: str, name: str) -> typing.Optional[int]:
